@@ -103,13 +103,13 @@ Dereg(T, s, c) == IF s = Never THEN T ELSE [T EXCEPT !.cbs[s] = SelectSeq(@, LAM
 \* registration of node c's stop callback on source s: runs inline if stop was already requested
 RegFrames(T, s, c) == IF ReqOf(T, s) THEN <<Sig("runcb", c, NONE)>> ELSE <<>>
 Reg(T, s, c) == IF s = Never \/ ReqOf(T, s) THEN T ELSE [T EXCEPT !.cbs[s] = <<c>> \o @]
-ResetSub(T, k) ==    \* a re-connected subtree gets fresh operation states
+ResetSub(T, k) ==    \* a re-connected subtree gets fresh operation states (iter is NOT reset: the retry / repeat
+                     \* budgets are counters owned by the user's callables, which outlive the operation states)
   LET D == {k} \cup Desc(k) IN
   [T EXCEPT !.st = [n \in Nodes |-> IF n \in D THEN "idle" ELSE T.st[n]],
             !.cnt = [n \in Nodes |-> IF n \in D THEN 0 ELSE T.cnt[n]],
             !.doe = [n \in Nodes |-> IF n \in D THEN NONE ELSE T.doe[n]],
             !.first = [n \in Nodes |-> IF n \in D THEN NONE ELSE T.first[n]],
-            !.iter = [n \in Nodes |-> IF n \in D THEN 0 ELSE T.iter[n]],
             !.compl = [n \in Nodes |-> IF n \in D THEN 0 ELSE T.compl[n]],
             !.slot = [n \in Nodes |-> IF n \in D THEN [i \in 1..Len(Kids(n)) |-> NONE] ELSE T.slot[n]],
             !.req = [s \in Sources |-> IF s \in D THEN FALSE ELSE T.req[s]]]
